@@ -3,6 +3,7 @@
 # copies (no identity shared between NaNs, tuples, big ints, ...).
 from __future__ import print_function
 
+import struct
 import sys
 
 
@@ -57,6 +58,10 @@ def atoms():
         b"a",
         b"\xff\x00",
         Ellipsis,
+        # NaNs with the sign bit set (what x86 folds 1e999-1e999 into) and a payload
+        -float("nan"),
+        complex(-float("nan"), 0.0),
+        struct.unpack(">d", bytes([0x7F, 0xF8, 0, 0, 0, 0, 0, 1]))[0],
     ]
     return a
 
